@@ -656,7 +656,8 @@ def write_evidence(prop, tier, seed, nruns, stats, cover, samples, wall, workers
         'wall_s': round(wall, 2),
         'violations': len(reported),
     }
-    d = os.path.join(env.VERIF_DIR, 'evidence')
+    # evidence/ describes /repo itself; runs against a scratch tree (VERIF_REPO) go elsewhere
+    d = os.path.join(env.VERIF_DIR, 'evidence' if env.REPO == os.path.realpath('/repo') else 'evidence-scratch')
     os.makedirs(d, exist_ok=True)
     with open(os.path.join(d, f'{prop.ID}.json'), 'w') as fh:
         json.dump(doc, fh, indent=1, sort_keys=True, default=str)
